@@ -179,6 +179,7 @@ func runC02(r *Run) {
 	}
 
 	// ---- C02.8 the shipped action store refuses and remembers (restart safety rests on it)
+	freshActionsChannel(r, "C02.9")
 	r.Rule("C02.8", "the shipped ActionStore refuses a second action of a kind per (height, round) and a changed key, and keeps every action already recorded for the round when another is added (same rules as C16.2)")
 	actionStoreRules(r, "C02.8")
 
@@ -319,7 +320,7 @@ func rlcParam(fn *ssa.Function) string {
 // that received from a channel loaded from field <latch> of a RoundLifecycle.
 func selectRecvGuard(a *FnA, target ssa.Instruction, latch string) bool {
 	var edges []Edge
-	for _, b := range a.fn.Blocks {
+	for _, b := range a.blocks() {
 		if len(b.Instrs) == 0 {
 			continue
 		}
